@@ -1,6 +1,7 @@
 import DhcpProofs.Lemmas.V6Fuel
 import DhcpProofs.Lemmas.LabelApi
 import DhcpProofs.Lemmas.V6Parse
+import DhcpProofs.Lemmas.V6Fresh
 /-
   C02 — DHCPv6 encode→decode preserves messages, relay chains and every option
   type.  `encMsg`/`dec6` model `ToBytes`/`dhcpv6.FromBytes`; `WFMsg` is the
@@ -51,6 +52,57 @@ theorem C02_domainSearch_fresh (ns : List Bytes) (h : Spec.Name.ValidNames ns) :
   have h2 := Label.fromBytes_labelsToBytes ns h
   simp [parseOption, fuelFor, parseOpt, decSimple, h2]
 
+/-! ### freshly built label sets, at message level
+
+`WFMsg` asks every label set (domain search list 24, client FQDN 39, NTP server
+FQDN suboption 56/3) to be in DECODED form (`original` = the bytes it was parsed
+from).  A caller who builds a message (`WithFQDN`, `WithDomainSearchList`,
+`&rfc1035label.Labels{Labels: …}`) has `original = nil`.  `WFMsg'`
+(Dhcp/V6/Domain.lean) is `WFMsg` with such fresh sets of valid names allowed
+anywhere, at any depth; `normMsg` replaces each fresh set by its decoded form
+(`original` = the bytes `labelsToBytes` emits for the names, names unchanged) and
+touches nothing else. -/
+
+/-- what the normalisation does to one label set -/
+theorem C02_normLabels (orig : Option Bytes) (ns : List Bytes) :
+    normLabels ⟨none, ns⟩ = ⟨some (Label.labelsToBytes ns), ns⟩ ∧
+    (∀ b, normLabels ⟨some b, ns⟩ = ⟨some b, ns⟩) ∧
+    (normLabels ⟨orig, ns⟩).labels = ns ∧
+    (normLabels ⟨orig, ns⟩).toBytes = (Label.Labels.mk orig ns).toBytes :=
+  ⟨rfl, fun _ => rfl, normLabels_labels _, normLabels_toBytes _⟩
+
+/-- **C02 (round trip with fresh label sets).** For every message or relay
+chain of the extended domain — any depth, any number of options, label sets
+fresh or decoded wherever they occur — decoding the encoder's bytes returns the
+message with every fresh label set in its decoded form and everything else
+equal: `dec6 (encMsg m) = ok (normMsg m)`. -/
+theorem C02_roundtrip_fresh (m : Msg6) (h : WFMsg' m) : dec6 (encMsg m) = .ok (normMsg m) :=
+  dec6_encMsg_fresh m h
+
+/-- the same for `ParseOption` on one option's value (subsumes `C02_domainSearch_fresh`) -/
+theorem C02_roundtrip_option_fresh (o : Opt6) (h : WFOpt' o) :
+    parseOption o.code (encOpt o) = .ok (normOpt o) :=
+  parseOption_encOpt_fresh o h
+
+/-- `C02_roundtrip` is the special case without fresh sets: `WFMsg ⊆ WFMsg'`
+and `normMsg` is the identity on `WFMsg` -/
+theorem C02_fresh_extends (m : Msg6) (h : WFMsg m) : WFMsg' m ∧ normMsg m = m :=
+  ⟨WFMsg'_of_WF m h, normMsg_of_WF m h⟩
+
+/-- the normal form is on the wire what the message is (for EVERY message, in
+the domain or not); it lies in the round-trip domain, so decoding its encoding
+returns it unchanged: a second trip changes nothing more -/
+theorem C02_norm_fixpoint (m : Msg6) :
+    encMsg (normMsg m) = encMsg m ∧
+    (WFMsg' m → WFMsg (normMsg m) ∧ normMsg (normMsg m) = normMsg m ∧
+      dec6 (encMsg (normMsg m)) = .ok (normMsg m)) :=
+  ⟨encMsg_norm m, fun h => ⟨WFMsg_norm m h, normMsg_idem m h, dec6_encMsg _ (WFMsg_norm m h)⟩⟩
+
+/-- the emitted bytes of a message with fresh label sets are derivable in the
+framing grammar with the normal form as their reading -/
+theorem C02_wire_fresh (m : Msg6) (h : WFMsg' m) : Spec.PMsg (encMsg m) (normMsg m) :=
+  (dec6_iff _ _).mp (dec6_encMsg_fresh m h)
+
 theorem durOK_ofNat (s : Nat) (h : s < 4294967296) : DurOK ((s : Int) * second) := ⟨s, h, rfl⟩
 theorem ip16_zeros : IP16 (some (zeros 16)) := ⟨zeros 16, rfl, by simp⟩
 
@@ -76,5 +128,62 @@ example : WFMsg
   · exact ⟨by decide, d 3600, d 7200, ⟨ip16_zeros, d 60, d 120, by simp [WFOpt], by decide, trivial⟩, by decide, trivial⟩
   · exact ⟨by decide, d 0, d 0, ⟨d 60, d 120, ⟨by decide, by decide, ip16_zeros⟩, trivial⟩, by decide, trivial⟩
   · exact ⟨by decide, by decide⟩
+
+/-- a relay-forward carrying a SOLICIT built the way a client builds it: domain
+search list "a.b", "c"; client FQDN "h.c"; NTP server FQDN "n.t" — all three
+label sets FRESH — next to an IA_NA -/
+def exFresh : Msg6 :=
+  .relay 12 0 (some (zeros 16)) (some (zeros 16))
+    [.relayMsg (.msg 1 [7, 8, 9]
+      [.domainSearch ⟨none, [[97, 46, 98], [99]]⟩,
+       .fqdn 1 ⟨none, [[104, 46, 99]]⟩,
+       .ntp [.srvFQDN ⟨none, [[110, 46, 116]]⟩],
+       .iana [0, 0, 0, 1] ((3600 : Nat) * second) ((7200 : Nat) * second) []])]
+
+set_option maxRecDepth 20000 in
+/-- Non-vacuity of `C02_roundtrip_fresh`: `exFresh` is in the extended domain
+(and NOT in `WFMsg`: its label sets have no `original`) … -/
+example : WFMsg' exFresh ∧ ¬ WFMsg exFresh := by
+  have d (s : Nat) (h : s < 4294967296 := by decide) : DurOK ((s : Int) * second) := durOK_ofNat s h
+  constructor
+  · refine ⟨by decide, ip16_zeros, ip16_zeros, ?_, by decide, trivial⟩
+    refine ⟨by decide, by decide, ?_, by decide, ?_, by decide, ?_, by decide, ?_, by decide, trivial⟩
+    · exact .inr ⟨rfl, by decide⟩
+    · exact .inr ⟨rfl, by decide⟩
+    · intro s hs
+      simp only [List.mem_singleton] at hs
+      subst hs
+      exact ⟨⟨.inr ⟨rfl, by decide⟩, rfl⟩, by decide⟩
+    · exact ⟨by decide, d 3600, d 7200, trivial⟩
+  · intro h
+    simp only [exFresh, WFMsg, WFOpts, WFOpt] at h
+    obtain ⟨b, hb, _⟩ := h.2.2.2.1.2.2.1
+    cases hb
+
+/-- … and what comes back is the same message with the three label sets carrying
+the bytes they were parsed from -/
+example : dec6 (encMsg exFresh) = .ok
+    (.relay 12 0 (some (zeros 16)) (some (zeros 16))
+      [.relayMsg (.msg 1 [7, 8, 9]
+        [.domainSearch ⟨some [1, 97, 1, 98, 0, 1, 99, 0], [[97, 46, 98], [99]]⟩,
+         .fqdn 1 ⟨some [1, 104, 1, 99, 0], [[104, 46, 99]]⟩,
+         .ntp [.srvFQDN ⟨some [1, 110, 1, 116, 0], [[110, 46, 116]]⟩],
+         .iana [0, 0, 0, 1] ((3600 : Nat) * second) ((7200 : Nat) * second) []])]) := by
+  have hd : WFMsg' exFresh := by
+    have d (s : Nat) (h : s < 4294967296 := by decide) : DurOK ((s : Int) * second) := durOK_ofNat s h
+    refine ⟨by decide, ip16_zeros, ip16_zeros, ?_, by decide, trivial⟩
+    refine ⟨by decide, by decide, ?_, by decide, ?_, by decide, ?_, by decide, ?_, by decide, trivial⟩
+    · exact .inr ⟨rfl, by decide⟩
+    · exact .inr ⟨rfl, by decide⟩
+    · intro s hs
+      simp only [List.mem_singleton] at hs
+      subst hs
+      exact ⟨⟨.inr ⟨rfl, by decide⟩, rfl⟩, by decide⟩
+    · exact ⟨by decide, d 3600, d 7200, trivial⟩
+  rw [C02_roundtrip_fresh exFresh hd]
+  have e1 : Label.labelsToBytes [[97, 46, 98], [99]] = [1, 97, 1, 98, 0, 1, 99, 0] := by decide
+  have e2 : Label.labelsToBytes [[104, 46, 99]] = [1, 104, 1, 99, 0] := by decide
+  have e3 : Label.labelsToBytes [[110, 46, 116]] = [1, 110, 1, 116, 0] := by decide
+  simp only [exFresh, normMsg, normOpts, normOpt, normNTP, normLabels, List.map, e1, e2, e3]
 
 end Dhcp.Props
